@@ -61,7 +61,9 @@ def line_job(job):
         for p in DEPTH_PATHS:
             ws.write(w, p, scen.content([value]))
         fp = {'kind': 'M', 'old': 'x/y/a', 'new': 'x/y/a', 'ren': False, 'hunks': [{'cell': 1, 'from': 0, 'to': 1}], 'to': [], 'from': [], 'nmode': 'none'}
-        patch = b'--- x/y/a\n+++ x/y/a\n' + scen.hunk_text(fp['hunks'][0])
+        # the name is spelled with single or with doubled separators: a run of slashes ends one component, whatever -pN strips
+        spelled = (b'x/y/a', b'x//y/a', b'x/y//a', b'x///y//a')[(variant + len(words) + value) % 4]
+        patch = b'--- ' + spelled + b'\n+++ ' + spelled + b'\n' + scen.hunk_text(fp['hunks'][0])
         ws.write(w, 'patches/' + words[0], patch)
         ws.write(w, 'series', ('# a comment\n\n' + text + '\n   \n').encode())
         before = ws.snapshot(w)
@@ -234,7 +236,7 @@ def check_c16(prop, tier):
     finally:
         shutil.rmtree(work, ignore_errors=True)
     res.cov['exhaustive'] = False
-    res.cov['rule'] = ('every series line of up to MaxWords words over 13 word classes (name, #word, -pN, -p N, --strip=N, --strip N, -R/--reverse, -RpN, unknown option, bare number, non-numeric strip), with and '
+    res.cov['rule'] = ('every series line of up to MaxWords words (the name x/y/a in the patch spelled with single and doubled separators in rotation) over 13 word classes (name, #word, -pN, -p N, --strip=N, --strip N, -R/--reverse, -RpN, unknown option, bare number, non-numeric strip), with and '
                        'without leading blanks (TLC, exhaustive; sampled in the quick tier), each run against files at path depths 0/1/2 holding either cell value; plus all scenarios with a differing-names file patch '
                        'for the old-if-exists-else-new rule, memory overriding disk')
     return res
